@@ -180,13 +180,15 @@ def gen_call(rnd, names):
     args = [str(rnd.randint(1, 9)) for _ in range(npos)]
     if rnd.random() < 0.25:
         args.append('*[' + ', '.join(str(rnd.randint(10, 19)) for _ in range(rnd.randint(0, 2))) + ']')
-    pool = names + ['zz']
+    pool = names + ['zz', 'yy']
     kws = []
     for n in rnd.sample(pool, rnd.randint(0, min(3, len(pool)))):
         kws.append(f"{n}={rnd.randint(20, 29)}")
-    if rnd.random() < 0.25 and pool:
+    # ** expansions at any position among the keywords (f(**d, x=1), f(x=1, **d), f(**a, k=1, **b)): the order of the
+    # entries that reach the callee's **kw is observable (the results are compared with their insertion order)
+    for _ in range(rnd.choice([0, 0, 0, 1, 1, 2])):
         d = {rnd.choice(pool): rnd.randint(30, 39) for _ in range(rnd.randint(1, 2))}
-        kws.append('**' + repr(d))
+        kws.insert(rnd.randint(0, len(kws)), '**' + repr(d))
     return ', '.join(args + kws)
 
 
